@@ -109,7 +109,7 @@ def genRet (firstParam : Option String) (vars : List String) : G Ret := do
 
 /-- numeric-valued expressions over `vars` (numeric variables) and `fns` (name, arity) -/
 partial def genE (depth : Nat) (vars : List String) (fns : List (String × Nat)) : G Expr := do
-  let k ← rnd (if depth = 0 then 3 else 16)
+  let k ← rnd (if depth = 0 then 3 else 18)
   let sub := genE (depth - 1) vars fns
   match k with
   | 0 => return .num (← rnd 10)
@@ -135,6 +135,15 @@ partial def genE (depth : Nat) (vars : List String) (fns : List (String × Nat))
   | 12 => return .member (.tmpl ["x", "y", ""] [.asT (← sub) (← genTy 1 vars), .nonNull (← sub)]) "length"
   | 13 => return .cond (.bin "<" (← sub) (← sub)) (← sub) (← sub)
   | 14 => return .paren (.asT (.angle (.kw "any") (← sub)) (.kw "number"))
+  | 15 | 16 => do
+    -- an async arrow (with type parameters, typed parameters, a Promise return type): what it returns is a promise
+    -- whether or not it carries static syntax; `instanceof Promise` and the truthiness of `.then` observe that without awaiting
+    let p : Param := { name := "q", ty := (← if (← chance 70) then some <$> genTy 1 vars else pure none), opt := false, dflt := none }
+    let body ← genE (depth - 1) ("q" :: vars) fns
+    let ret ← if (← chance 60) then pure (Ret.ty (.ref "Promise" [← genTy 1 vars])) else pure Ret.none
+    let call := Expr.call (.paren (.asyncArrow (← genTParams) [p] ret body)) [] [← sub]
+    if (← chance 50) then return .cond (.bin "instanceof" call (.var "Promise")) (.num 1) (.num 0)
+    else return .cond (.member call "then") (.num 1) (.num 0)
   | _ => return .member (.asT (.objLit [("k", ← sub)]) (.obj [("k", false, .kw "number")])) "k"
 
 def genParams (vars : List String) : G (List Param) := do
